@@ -154,7 +154,7 @@ Section AddAllocated.
   Hypothesis N : no_overcommit l.
   Hypothesis Hper : res_nonneg per = true.
   Hypothesis ND : NoDup (map fst al).
-  Hypothesis Hall : forall a, In a al -> ledger_ok l minors per (fst a) /\ granted t (total l) per a.
+  Hypothesis Hall : forall a, In a al -> ledger_ok true l minors per (fst a) /\ granted t (total l) per a.
   Hypothesis Hp : aset_mem p (aset l) = false.
   Let l' := ledger_add l p al.
 
@@ -171,7 +171,7 @@ Section AddAllocated.
     intros Hk m T E. unfold l' in E. rewrite total_ledger_add in E. rewrite used_add_val.
     specialize (N m k T E).
     destruct (asum_cases al m k ND) as [-> | [a [Ha [Em ->]]]]; [lia|].
-    rewrite (Hk a Ha). destruct (Hall a Ha) as [[_ [f [Ef [R _]]]] _]. rewrite Em in *.
+    rewrite (Hk a Ha). destruct (Hall a Ha) as [[_ [f [Ef [R _]]]] _]. specialize (R eq_refl). rewrite Em in *.
     unfold rval. destruct (rget per k) as [v|] eqn:Ev; cbn [oz]; [|lia].
     pose proof (view_free_rle_exposed l (lg_fs _ G) (lg_tot _ G) (lgood_used_nonneg _ G)
                   m f Ef per k T v R E Ev) as Hv.
